@@ -48,7 +48,7 @@
 //                         deleted and collected -- would dereference to everything behind the start.  Not reachable while the
 //                         start element is still there: both live in the same list.)
 //
-// CONTRACTS (whole functions unless noted; `View` = (pending blocks of the inner iterator, state, start, end))
+// CONTRACTS (whole functions unless noted; `IterView` = (pending blocks of the inner iterator, state, start, end))
 //   Item::contains(id)        == covers_id(self, id): same client, clock in [id.clock, id.clock + len).  requires clock + len <= u32::MAX
 //                                (`self.id.clock + self.len()` is an unchecked u32 addition; holds for integrated blocks: A-CLK).
 //   Item::{id, len}, ItemSlice::new (requires start <= end: its debug_assert!, R9), StickyIndex::id (== id_spec()), RangeIter::new.
@@ -173,13 +173,99 @@ pub struct ClientID(pub u64);
 
 /*@extract yrs/src/sticky_index.rs | - | struct StickyIndex | rules=SUB(from=scope: IndexScope;;to=pub scope: IndexScope) @*/
 
-/// sliced, see the table at the top
+/*@extract yrs/src/block.rs | - | const ITEM_FLAG_DELETED @*/
+/*@extract yrs/src/block.rs | - | const ITEM_FLAG_COUNTABLE @*/
+
+#[derive(Copy, Clone, PartialEq, Eq, Structural)]
+/*@extract yrs/src/block.rs | - | struct ItemFlags | rules=SUB(from=ItemFlags(u16);;to=ItemFlags(pub u16)) @*/
+
+#[derive(Copy, Clone, PartialEq, Eq, Structural)]
+/*@extract yrs/src/doc.rs | - | enum OffsetKind @*/
+
+/// ABSTRACTION of `SplittableString` (see the table at the top): its two lengths and the TABLE of `block_offset(_, Bytes)`
+pub struct SplittableString {
+    pub vx_utf16_len: u32,
+    pub vx_bytes_len: u32,
+    pub vx_offsets: Vec<u32>,
+}
+
+impl SplittableString {
+    pub open spec fn len_spec(&self, kind: OffsetKind) -> u32 {
+        match kind {
+            OffsetKind::Bytes => self.vx_bytes_len,
+            OffsetKind::Utf16 => self.vx_utf16_len,
+        }
+    }
+
+    /// `SplittableString::block_offset`: "given an `offset` provided in given `encoding` we want the output as a UTF-16
+    /// compatible offset".  Utf16: the offset itself (the REAL first arm); Bytes: 0 for 0 (the real loop leaves at once), else
+    /// the table entry -- an ARBITRARY function of the offset
+    pub open spec fn block_offset_spec(&self, offset: u32, kind: OffsetKind) -> u32 {
+        match kind {
+            OffsetKind::Utf16 => offset,
+            OffsetKind::Bytes => if offset == 0 { 0 } else if (offset as int) < self.vx_offsets@.len() { self.vx_offsets@[offset as int] } else { self.vx_utf16_len },
+        }
+    }
+
+    /// STAND-IN body (the real one walks the characters of the string)
+    pub fn block_offset(&self, offset: u32, kind: OffsetKind) -> (r: u32)
+        ensures r == self.block_offset_spec(offset, kind),
+    {
+        match kind {
+            OffsetKind::Utf16 => offset,
+            OffsetKind::Bytes => if offset == 0 { 0 } else if (offset as usize) < self.vx_offsets.len() { self.vx_offsets[offset as usize] } else { self.vx_utf16_len },
+        }
+    }
+
+    /// STAND-IN body of `SplittableString::len`
+    pub fn len(&self, kind: OffsetKind) -> (r: u32)
+        ensures r == self.len_spec(kind),
+    {
+        match kind {
+            OffsetKind::Bytes => self.vx_bytes_len,
+            OffsetKind::Utf16 => self.vx_utf16_len,
+        }
+    }
+}
+
+/// ABSTRACTION of `ItemContent`: a string, or any other content with its element count (`ItemContent::len`: the same number
+/// for both offset kinds unless the content is a string)
+pub enum ItemContent {
+    String(SplittableString),
+    Other(u32),
+}
+
+impl ItemContent {
+    pub open spec fn len_spec(&self, kind: OffsetKind) -> u32 {
+        match self {
+            ItemContent::String(s) => s.len_spec(kind),
+            ItemContent::Other(n) => *n,
+        }
+    }
+
+    /// STAND-IN body of `ItemContent::len`
+    pub fn len(&self, kind: OffsetKind) -> (r: u32)
+        ensures r == self.len_spec(kind),
+    {
+        match self {
+            ItemContent::String(s) => s.len(kind),
+            ItemContent::Other(n) => *n,
+        }
+    }
+}
+
+/// sliced + lowered, see the table at the top
 pub struct Item {
     pub id: ID,
     pub len: u32,
+    pub right: Option<&'static Item>,
+    pub info: ItemFlags,
+    pub content: ItemContent,
 }
 
 pub type ItemPtr = &'static Item;
+
+/*@extract yrs/src/iter.rs | - | struct BlockIter | rules=SUB(from=BlockIter(Option<ItemPtr>);;to=BlockIter(pub Option<ItemPtr>)) @*/
 
 /*@extract yrs/src/slice.rs | - | struct ItemSlice @*/
 
@@ -341,7 +427,7 @@ pub open spec fn finding_q1_same_anchor_exclusive_start(start: StickyIndex, end:
 // specification, part 2: the iterator, block level
 // ---------------------------------------------------------------------------------------------
 /// ghost view of a `RangeIter`: the blocks the inner iterator has not handed out yet (document order) + the three fields
-pub struct View {
+pub struct IterView {
     pub s: Seq<ItemPtr>,
     pub state: RangeIterState,
     pub start: StickyIndex,
@@ -423,24 +509,24 @@ pub open spec fn cut_ids(p: &Item, c: Cut) -> Seq<ID> {
     }
 }
 
-pub open spec fn step(v: View, p: ItemPtr, so: int, rest: Seq<ItemPtr>) -> (View, Option<ItemSlice>) {
+pub open spec fn step(v: IterView, p: ItemPtr, so: int, rest: Seq<ItemPtr>) -> (IterView, Option<ItemSlice>) {
     let c = end_cut(p, so, v.end);
-    (View { s: rest, state: if c.closes { RangeIterState::Closed } else { RangeIterState::InRange }, start: v.start, end: v.end }, cut_slice(p, c))
+    (IterView { s: rest, state: if c.closes { RangeIterState::Closed } else { RangeIterState::InRange }, start: v.start, end: v.end }, cut_slice(p, c))
 }
 
 /// PER-CALL CONTRACT of `<RangeIter as Iterator>::next`: the new state / remaining inner sequence and the slice returned
-pub open spec fn next_spec(v: View) -> (View, Option<ItemSlice>) {
+pub open spec fn next_spec(v: IterView) -> (IterView, Option<ItemSlice>) {
     match v.state {
         RangeIterState::Closed => (v, None),
         RangeIterState::InRange => if v.s.len() == 0 { (v, None) } else { step(v, v.s[0], 0, v.s.skip(1)) },
         RangeIterState::Opened => {
             let l = start_landing(v.s, v.start, v.end);
             if !l.found {
-                (View { s: Seq::empty(), state: v.state, start: v.start, end: v.end }, None)
+                (IterView { s: Seq::empty(), state: v.state, start: v.start, end: v.end }, None)
             } else if l.ended {
-                (View { s: v.s.skip(l.idx), state: RangeIterState::Closed, start: v.start, end: v.end }, None)
+                (IterView { s: v.s.skip(l.idx), state: RangeIterState::Closed, start: v.start, end: v.end }, None)
             } else if l.idx >= v.s.len() {
-                (View { s: Seq::empty(), state: RangeIterState::InRange, start: v.start, end: v.end }, None)
+                (IterView { s: Seq::empty(), state: RangeIterState::InRange, start: v.start, end: v.end }, None)
             } else {
                 step(v, v.s[l.idx], l.off, v.s.skip(l.idx + 1))
             }
@@ -454,7 +540,7 @@ pub open spec fn next_spec(v: View) -> (View, Option<ItemSlice>) {
 // with start_offset <= end_offset only (an end cut in front of the slice start returns None).
 
 /// the units still to be yielded
-pub open spec fn rem(v: View) -> Seq<ID> {
+pub open spec fn rem(v: IterView) -> Seq<ID> {
     match v.state {
         RangeIterState::Closed => Seq::empty(),
         RangeIterState::InRange => flat(v.s).subrange(0, hi(v.s, v.end)),
@@ -463,7 +549,7 @@ pub open spec fn rem(v: View) -> Seq<ID> {
 }
 
 /// `(w, r) == next_spec(v)`, with the sequence component compared extensionally
-pub open spec fn next_post(v: View, w: View, r: Option<ItemSlice>) -> bool {
+pub open spec fn next_post(v: IterView, w: IterView, r: Option<ItemSlice>) -> bool {
     &&& w.s =~= next_spec(v).0.s
     &&& w.state == next_spec(v).0.state
     &&& w.start == next_spec(v).0.start
@@ -471,7 +557,7 @@ pub open spec fn next_post(v: View, w: View, r: Option<ItemSlice>) -> bool {
     &&& r == next_spec(v).1
 }
 
-pub open spec fn view_dom(v: View) -> bool {
+pub open spec fn view_dom(v: IterView) -> bool {
     v.state == RangeIterState::Opened ==> dom(v.s, v.start, v.end)
 }
 
@@ -482,7 +568,7 @@ pub open spec fn view_dom(v: View) -> bool {
 // ---------------------------------------------------------------------------------------------
 /// the units still to be yielded by a traversal that uses `next_back` only: `s` = the blocks the inner iterator has not handed
 /// out yet (its BACK end is consumed)
-pub open spec fn rem_back(v: View) -> Seq<ID> {
+pub open spec fn rem_back(v: IterView) -> Seq<ID> {
     match v.state {
         RangeIterState::Closed => Seq::empty(),
         RangeIterState::InRange => if lo(v.s, v.start) <= total(v.s) { flat(v.s).subrange(lo(v.s, v.start), total(v.s)) } else { Seq::empty() },
@@ -492,7 +578,7 @@ pub open spec fn rem_back(v: View) -> Seq<ID> {
 
 /// DOMAIN of the backward traversal: both anchors are absent or occur (a traversal from the back cannot know that an anchor will
 /// never show up before it has handed out blocks), and the end anchor is not in front of the start anchor
-pub open spec fn dom_back(v: View) -> bool {
+pub open spec fn dom_back(v: IterView) -> bool {
     v.state == RangeIterState::Opened ==> {
         &&& v.start.id_spec() is Some ==> occurs(v.s, v.start.id_spec().unwrap())
         &&& v.end.id_spec() is Some ==> occurs(v.s, v.end.id_spec().unwrap())
@@ -503,7 +589,7 @@ pub open spec fn dom_back(v: View) -> bool {
 /// PER-CALL CONTRACT of `<RangeIter as DoubleEndedIterator>::next_back`: None exactly when nothing is left; otherwise a
 /// NON-EMPTY slice of ONE pending block holding the LAST units still to be yielded; what is pending afterwards is a prefix of
 /// what was pending
-pub open spec fn next_back_ok(v: View, w: View, r: Option<ItemSlice>) -> bool {
+pub open spec fn next_back_ok(v: IterView, w: IterView, r: Option<ItemSlice>) -> bool {
     &&& w.start == v.start && w.end == v.end
     &&& w.s.is_prefix_of(v.s)
     &&& match r {
@@ -525,14 +611,14 @@ pub open spec fn concat_back(outs: Seq<ItemSlice>) -> Seq<ID>
 
 /// `vs[i]` is the iterator before the i-th call of `next_back`, `outs[i]` the slice that call returns; `vs.last()` is the
 /// iterator after the call that returned None
-pub open spec fn is_trace_back(vs: Seq<View>, outs: Seq<ItemSlice>) -> bool {
+pub open spec fn is_trace_back(vs: Seq<IterView>, outs: Seq<ItemSlice>) -> bool {
     &&& vs.len() == outs.len() + 2
     &&& forall|i: int| 0 <= i < outs.len() ==> next_back_ok(#[trigger] vs[i], vs[i + 1], Some(outs[i]))
     &&& next_back_ok(vs[outs.len() as int], vs[outs.len() as int + 1], None)
 }
 
 /// DRAIN LEMMA, from the back: all the calls together yield exactly the units still to be yielded at the beginning
-pub proof fn lemma_drain_back(vs: Seq<View>, outs: Seq<ItemSlice>)
+pub proof fn lemma_drain_back(vs: Seq<IterView>, outs: Seq<ItemSlice>)
     requires
         is_trace_back(vs, outs),
     ensures
@@ -594,16 +680,16 @@ pub open spec fn back_entry_offset(p: &Item, end: StickyIndex) -> int {
 
 /// the slice the code builds from block `p` with the given `end_offset`: from the start anchor (if `p` holds it; `start.assoc`
 /// is not consulted) or from offset 0
-pub open spec fn step_back_code(v: View, p: ItemPtr, eo: int, rest: Seq<ItemPtr>) -> (View, Option<ItemSlice>) {
+pub open spec fn step_back_code(v: IterView, p: ItemPtr, eo: int, rest: Seq<ItemPtr>) -> (IterView, Option<ItemSlice>) {
     if v.start.id_spec() is Some && covers_id(p, v.start.id_spec().unwrap()) {
-        (View { s: rest, state: RangeIterState::Closed, start: v.start, end: v.end },
+        (IterView { s: rest, state: RangeIterState::Closed, start: v.start, end: v.end },
             Some(ItemSlice { ptr: p, start: (v.start.id_spec().unwrap().clock - p.id.clock) as u32, end: eo as u32 }))
     } else {
-        (View { s: rest, state: RangeIterState::InRange, start: v.start, end: v.end }, Some(ItemSlice { ptr: p, start: 0, end: eo as u32 }))
+        (IterView { s: rest, state: RangeIterState::InRange, start: v.start, end: v.end }, Some(ItemSlice { ptr: p, start: 0, end: eo as u32 }))
     }
 }
 
-pub open spec fn next_back_code(v: View) -> (View, Option<ItemSlice>) {
+pub open spec fn next_back_code(v: IterView) -> (IterView, Option<ItemSlice>) {
     match v.state {
         RangeIterState::Closed => (v, None),
         // `end_offset` keeps its initial value 0
@@ -611,7 +697,7 @@ pub open spec fn next_back_code(v: View) -> (View, Option<ItemSlice>) {
         RangeIterState::Opened => {
             let j = back_entry(v.s, v.end);
             if j < 0 {
-                (View { s: Seq::empty(), state: v.state, start: v.start, end: v.end }, None)
+                (IterView { s: Seq::empty(), state: v.state, start: v.start, end: v.end }, None)
             } else {
                 step_back_code(v, v.s[j], back_entry_offset(v.s[j], v.end), v.s.take(j))
             }
@@ -620,7 +706,7 @@ pub open spec fn next_back_code(v: View) -> (View, Option<ItemSlice>) {
 }
 
 /// weakest precondition of `ItemSlice::new(ptr, start_offset, end_offset)` in `next_back` (its debug_assert!(start <= end))
-pub open spec fn next_back_code_total(v: View) -> bool {
+pub open spec fn next_back_code_total(v: IterView) -> bool {
     let a = v.start.id_spec();
     match v.state {
         RangeIterState::Closed => true,
@@ -632,7 +718,7 @@ pub open spec fn next_back_code_total(v: View) -> bool {
     }
 }
 
-pub open spec fn next_back_code_post(v: View, w: View, r: Option<ItemSlice>) -> bool {
+pub open spec fn next_back_code_post(v: IterView, w: IterView, r: Option<ItemSlice>) -> bool {
     &&& w.s =~= next_back_code(v).0.s
     &&& w.state == next_back_code(v).0.state
     &&& w.start == next_back_code(v).0.start
@@ -672,7 +758,7 @@ pub proof fn observation_qb_end_one_past_the_block(p: ItemPtr, start: StickyInde
         end.id_spec() is None,
     ensures
         ({
-            let v = View { s: seq![p], state: RangeIterState::Opened, start: start, end: end };
+            let v = IterView { s: seq![p], state: RangeIterState::Opened, start: start, end: end };
             let (w, r) = next_back_code(v);
             &&& next_back_code_total(v) && dom_back(v) && items_ok(v.s) && disjoint(v.s)
             &&& r == Some(ItemSlice { ptr: p, start: 0, end: 2 })
@@ -699,7 +785,7 @@ pub proof fn observation_qb_inner_blocks_lose_units(p0: ItemPtr, p1: ItemPtr, st
         end.id_spec() == Some(ID { client: p1.id.client, clock: (p1.id.clock + 1) as u32 }) && end.assoc == Assoc::After,
     ensures
         ({
-            let v0 = View { s: seq![p0, p1], state: RangeIterState::Opened, start: start, end: end };
+            let v0 = IterView { s: seq![p0, p1], state: RangeIterState::Opened, start: start, end: end };
             let (v1, r1) = next_back_code(v0);
             let (v2, r2) = next_back_code(v1);
             &&& next_back_code_total(v0) && next_back_code_total(v1)
@@ -715,7 +801,7 @@ pub proof fn observation_qb_inner_blocks_lose_units(p0: ItemPtr, p1: ItemPtr, st
     assert(covers_id(p1, e));
     assert(rfind(s, e) == 1);
     assert(s.take(1) =~= seq![p0]);
-    let v1 = next_back_code(View { s: s, state: RangeIterState::Opened, start: start, end: end }).0;
+    let v1 = next_back_code(IterView { s: s, state: RangeIterState::Opened, start: start, end: end }).0;
     let s1 = seq![p0];
     assert(v1.s == s1);
     assert(s1[0] == p0 && s1.last() == p0);
@@ -1035,7 +1121,7 @@ pub proof fn lemma_landing(s: Seq<ItemPtr>, start: StickyIndex, end: StickyIndex
 
 /// STEP THEOREM: on the domain one call of `next` (as specified by `next_spec`) returns None exactly when nothing is left, and
 /// otherwise returns a NON-EMPTY slice of ONE pending block, in order: the next units still to be yielded
-pub proof fn theorem_step(v: View)
+pub proof fn theorem_step(v: IterView)
     requires
         items_ok(v.s),
         view_dom(v),
@@ -1125,7 +1211,7 @@ pub open spec fn concat_ids(outs: Seq<ItemSlice>) -> Seq<ID>
 
 /// `vs[i]` is the iterator before the i-th call of `next`, `outs[i]` the slice that call returns, and the call after the last
 /// of them returns None
-pub open spec fn is_trace(vs: Seq<View>, outs: Seq<ItemSlice>) -> bool {
+pub open spec fn is_trace(vs: Seq<IterView>, outs: Seq<ItemSlice>) -> bool {
     &&& vs.len() == outs.len() + 1
     &&& forall|i: int| 0 <= i < outs.len() ==> next_spec(#[trigger] vs[i]) == (vs[i + 1], Some(outs[i]))
     &&& next_spec(vs.last()).1 is None
@@ -1137,7 +1223,7 @@ pub open spec fn slices_ok(s: Seq<ItemPtr>, outs: Seq<ItemSlice>) -> bool {
 }
 
 /// DRAIN LEMMA: all the calls together yield exactly the units still to be yielded at the beginning -- nothing else, in order
-pub proof fn lemma_drain(vs: Seq<View>, outs: Seq<ItemSlice>)
+pub proof fn lemma_drain(vs: Seq<IterView>, outs: Seq<ItemSlice>)
     requires
         is_trace(vs, outs),
         items_ok(vs[0].s),
@@ -1328,12 +1414,12 @@ pub proof fn lemma_not_occurs(s: Seq<ItemPtr>, id: ID)
 /// and hi <= lo gives the EMPTY sequence (e.g. an exclusive start and an end at the same element) -- on the WHOLE domain of the
 /// property: whenever both anchors occur, the end anchor is not in front of the start anchor (`prop_dom`, q >= p).  Nothing is
 /// yielded when the start anchor does not occur.  No id is yielded twice.
-pub proof fn theorem_quote_range(s: Seq<ItemPtr>, start: StickyIndex, end: StickyIndex, vs: Seq<View>, outs: Seq<ItemSlice>)
+pub proof fn theorem_quote_range(s: Seq<ItemPtr>, start: StickyIndex, end: StickyIndex, vs: Seq<IterView>, outs: Seq<ItemSlice>)
     requires
         items_ok(s),
         disjoint(s),
         prop_dom(s, start, end),
-        vs.len() > 0 && vs[0] == (View { s: s, state: RangeIterState::Opened, start: start, end: end }),
+        vs.len() > 0 && vs[0] == (IterView { s: s, state: RangeIterState::Opened, start: start, end: end }),
         is_trace(vs, outs),
     ensures
         slices_ok(s, outs),
@@ -1444,8 +1530,8 @@ pub proof fn example_next_back_single_block(p: ItemPtr, i: u32, j: u32, start: S
         end.id_spec() == Some(ID { client: p.id.client, clock: (p.id.clock + j) as u32 }) && end.assoc == Assoc::After,
     ensures
         ({
-            let v = View { s: seq![p], state: RangeIterState::Opened, start: start, end: end };
-            let w = View { s: Seq::empty(), state: RangeIterState::Closed, start: start, end: end };
+            let v = IterView { s: seq![p], state: RangeIterState::Opened, start: start, end: end };
+            let w = IterView { s: Seq::empty(), state: RangeIterState::Closed, start: start, end: end };
             dom_back(v) && next_back_ok(v, w, Some(ItemSlice { ptr: p, start: i, end: j }))
         }),
 {
@@ -1565,15 +1651,15 @@ pub open spec fn begin_post(s0: Seq<ItemPtr>, state0: RangeIterState, start: Sti
 }
 
 impl<I: BlockSeqIter> RangeIter<I> {
-    pub open spec fn view(&self) -> View {
-        View { s: self.iter.pending(), state: self.state, start: self.start, end: self.end }
+    pub open spec fn view(&self) -> IterView {
+        IterView { s: self.iter.pending(), state: self.state, start: self.start, end: self.end }
     }
 
     /*@extract yrs/src/iter.rs | impl<I> RangeIter<I> where I: Iterator<Item = ItemPtr>, | fn new | label=range_new
     @ret r
     @sig
         ensures
-            r.view() == (View { s: iter.pending(), state: RangeIterState::Opened, start: start, end: end }),
+            r.view() == (IterView { s: iter.pending(), state: RangeIterState::Opened, start: start, end: end }),
     @*/
 
     /*@extract yrs/src/iter.rs | impl<I> RangeIter<I> where I: Iterator<Item = ItemPtr>, | fn begin | label=range_begin
@@ -1795,6 +1881,977 @@ pub enum QuoteError {
         // TOTAL on every pair of indexes: an inverted range is an error, never an underflow
         end_index < start_index ==> r is Err && r->Err_0 is OutOfBounds,
         end_index >= start_index ==> r is Ok && r->Ok_0 == end_index - start_index + remaining,
+@*/
+
+// =============================================================================================
+// PART Q -- the index-to-anchor walk of `Quotable::quote` (yrs/src/types/weak.rs) over the item chain `this.start.to_iter()`
+// =============================================================================================
+impl ItemFlags {
+    pub open spec fn deleted_spec(&self) -> bool {
+        self.0 & 0b0000_0100 == 0b0000_0100
+    }
+
+    pub open spec fn countable_spec(&self) -> bool {
+        self.0 & 0b0000_0010 == 0b0000_0010
+    }
+
+    /*@extract yrs/src/block.rs | impl ItemFlags | fn check | label=flags_check
+    @ret r
+    @sig
+        ensures r == (self.0 & value == value),
+    @*/
+
+    /*@extract yrs/src/block.rs | impl ItemFlags | fn is_deleted | label=flags_is_deleted
+    @ret r
+    @sig
+        ensures r == self.deleted_spec(),
+    @*/
+
+    /*@extract yrs/src/block.rs | impl ItemFlags | fn is_countable | label=flags_is_countable
+    @ret r
+    @sig
+        ensures r == self.countable_spec(),
+    @*/
+}
+
+/// a VISIBLE element: not a tombstone and of a countable content kind (what indexes count)
+pub open spec fn vis(p: &Item) -> bool {
+    !p.info.deleted_spec() && p.info.countable_spec()
+}
+
+/// `content_len(kind)`: the number of INDEX units of the item
+pub open spec fn clen(p: &Item, kind: OffsetKind) -> int {
+    p.content.len_spec(kind) as int
+}
+
+pub open spec fn units(p: &Item, kind: OffsetKind) -> int {
+    if vis(p) { clen(p, kind) } else { 0 }
+}
+
+impl Item {
+    /*@extract yrs/src/block.rs | impl Item | fn is_deleted | label=item_is_deleted
+    @ret r
+    @sig
+        ensures r == self.info.deleted_spec(),
+    @*/
+
+    /*@extract yrs/src/block.rs | impl Item | fn is_countable | label=item_is_countable
+    @ret r
+    @sig
+        ensures r == self.info.countable_spec(),
+    @*/
+
+    /*@extract yrs/src/block.rs | impl Item | fn content_len | label=item_content_len
+    @ret r
+    @sig
+        ensures r == clen(self, kind),
+    @*/
+}
+
+/// the items reachable through `.right`, nearest first (A5: the chain is finite -- an immutable value of this type IS one)
+pub open spec fn chain(n: Option<ItemPtr>) -> Seq<ItemPtr>
+    decreases n,
+{
+    match n {
+        None => Seq::empty(),
+        Some(p) => seq![p] + chain(p.right),
+    }
+}
+
+impl BlockIter {
+    // real: `impl Iterator for BlockIter` (`curr.as_deref()` on the lowered pointer is the identity: SUB, logged)
+    /*@extract yrs/src/iter.rs | impl Iterator for BlockIter | fn next | label=block_iter_next | rules=SUB(from=Option<Self::Item>;;to=Option<ItemPtr>) SUB(from=.as_deref();;to=)
+    @ret r
+    @sig
+        ensures
+            r == old(self).0,
+            chain(old(self).0).len() == 0 ==> r is None && chain(final(self).0) == chain(old(self).0),
+            chain(old(self).0).len() > 0 ==> r == Some(chain(old(self).0)[0]) && chain(final(self).0) == chain(old(self).0).skip(1),
+    @start
+        proof {
+            match self.0 {
+                Some(p) => {
+                    assert(chain(self.0).skip(1) =~= chain(p.right));
+                },
+                None => {},
+            }
+        }
+    @*/
+}
+
+/// the REAL `BlockIter` meets the contract of the stand-in `BlockSeqIter` under which `RangeIter` is verified (in particular it
+/// is fused)
+impl BlockSeqIter for BlockIter {
+    open spec fn pending(&self) -> Seq<ItemPtr> {
+        chain(self.0)
+    }
+
+    fn next(&mut self) -> (r: Option<ItemPtr>) {
+        BlockIter::next(self)
+    }
+}
+
+/// shift a walk result by `k` items
+pub open spec fn lift(k: int, w: Option<(int, int)>) -> Option<(int, int)> {
+    match w {
+        Some((j, r)) => Some((k + j, r)),
+        None => None,
+    }
+}
+
+/// what the FIRST loop of `quote` computes for the index `r` on the chain `c`: (index of the item it stops at, what is left of
+/// `r`); None = the chain is exhausted
+pub open spec fn start_walk(c: Seq<ItemPtr>, r: int, kind: OffsetKind) -> Option<(int, int)>
+    decreases c.len(),
+{
+    if c.len() == 0 {
+        None
+    } else if r == 0 {
+        Some((0, 0))
+    } else if vis(c[0]) && r < clen(c[0], kind) {
+        Some((0, r))
+    } else {
+        lift(1, start_walk(c.skip(1), r - units(c[0], kind), kind))
+    }
+}
+
+/// what the SECOND loop computes.  This IS "the element at index r": invisible items are passed, the first visible item with
+/// r < content_len holds it at (index-unit) offset r
+pub open spec fn end_walk(c: Seq<ItemPtr>, r: int, kind: OffsetKind) -> Option<(int, int)>
+    decreases c.len(),
+{
+    if c.len() == 0 {
+        None
+    } else if vis(c[0]) && r < clen(c[0], kind) {
+        Some((0, r))
+    } else {
+        lift(1, end_walk(c.skip(1), r - units(c[0], kind), kind))
+    }
+}
+
+/// |V|: the number of visible index units of the chain (`len()` of the collection)
+pub open spec fn vlen(c: Seq<ItemPtr>, kind: OffsetKind) -> int
+    decreases c.len(),
+{
+    if c.len() == 0 { 0 } else { units(c[0], kind) + vlen(c.skip(1), kind) }
+}
+
+/// visible index units in front of item `k`
+pub open spec fn vsum(c: Seq<ItemPtr>, k: int, kind: OffsetKind) -> int
+    decreases k,
+{
+    if k <= 0 { 0 } else { vsum(c, k - 1, kind) + units(c[k - 1], kind) }
+}
+
+/// the CLOCK offset `quote` adds to the item's id for the index-unit offset `r`
+pub open spec fn clock_off(p: &Item, r: int, kind: OffsetKind) -> int {
+    match p.content {
+        ItemContent::String(s) => s.block_offset_spec(r as u32, kind) as int,
+        ItemContent::Other(_) => r,
+    }
+}
+
+pub open spec fn anchor_id(p: &Item, r: int, kind: OffsetKind) -> ID {
+    ID { client: p.id.client, clock: (p.id.clock + clock_off(p, r, kind)) as u32 }
+}
+
+/// ASSUMPTIONS about an item of the chain (see the table at the top): A-CLK; `len` is the UTF-16 length of the content
+/// (`Item::new`); a visible item has at least one index unit; A-BO: the clock offset of an index offset inside the item lies
+/// inside the item (DERIVED for UTF-16 documents and for non-string content: `lemma_walk_item_ok`; an assumption about
+/// `block_offset` for strings in Bytes documents)
+pub open spec fn walk_item_ok(p: &Item, kind: OffsetKind) -> bool {
+    &&& item_ok(p)
+    &&& p.len == p.content.len_spec(OffsetKind::Utf16)
+    &&& vis(p) ==> clen(p, kind) >= 1
+    &&& forall|r: int| 0 <= r < clen(p, kind) ==> 0 <= #[trigger] clock_off(p, r, kind) < p.len
+}
+
+pub open spec fn walk_ok(c: Seq<ItemPtr>, kind: OffsetKind) -> bool {
+    forall|i: int| 0 <= i < c.len() ==> walk_item_ok(#[trigger] c[i], kind)
+}
+
+pub proof fn lemma_walk_item_ok(p: &Item, kind: OffsetKind)
+    requires
+        item_ok(p),
+        p.len == p.content.len_spec(OffsetKind::Utf16),
+        vis(p) ==> clen(p, kind) >= 1,
+        kind == OffsetKind::Utf16 || p.content is Other,
+    ensures
+        walk_item_ok(p, kind),
+        forall|r: int| 0 <= r < clen(p, kind) ==> #[trigger] clock_off(p, r, kind) == r,
+{
+}
+
+/// FINDING Q3, input class: the first loop stops -- with nothing left of the index -- at an item that is NOT visible (a tombstone
+/// or a non-countable item directly in front of the element at the index, or behind the last element)
+pub open spec fn finding_q3_start_anchor_on_invisible_item(c: Seq<ItemPtr>, n: int, kind: OffsetKind) -> bool {
+    match start_walk(c, n, kind) {
+        Some((k, r)) => r == 0 && !vis(c[k]),
+        None => false,
+    }
+}
+
+/// THE PROPERTY for one bound ("the quotation's boundary elements are the elements at the given indices"): the result is the
+/// anchor of V[n] -- the id of the clock unit `clock_off` assigns to it inside the item holding it --, an error iff n >= |V|
+pub open spec fn anchors_unit(c: Seq<ItemPtr>, n: int, kind: OffsetKind, r: Result<ID, QuoteError>) -> bool {
+    match end_walk(c, n, kind) {
+        Some((k, o)) => r is Ok && r->Ok_0 == anchor_id(c[k], o, kind),
+        None => r is Err,
+    }
+}
+
+pub proof fn lemma_walk_bounds(c: Seq<ItemPtr>, n: int, kind: OffsetKind)
+    requires
+        walk_ok(c, kind),
+        0 <= n,
+    ensures
+        match start_walk(c, n, kind) {
+            Some((k, r)) => 0 <= k < c.len() && vsum(c, k, kind) + r == n && 0 <= r && (r > 0 ==> vis(c[k]) && r < clen(c[k], kind)),
+            None => true,
+        },
+        // "the element at index n": a VISIBLE item, the offset inside it, and exactly n visible units in front of it
+        match end_walk(c, n, kind) {
+            Some((k, r)) => 0 <= k < c.len() && vis(c[k]) && 0 <= r < clen(c[k], kind) && vsum(c, k, kind) + r == n,
+            None => true,
+        },
+        // an error exactly for n >= |V| ("that index still needs to point to existing value")
+        end_walk(c, n, kind) is None <==> n >= vlen(c, kind),
+        vlen(c, kind) >= 0,
+    decreases c.len(),
+{
+    if c.len() > 0 {
+        let t = c.skip(1);
+        assert forall|i: int| 0 <= i < t.len() implies walk_item_ok(#[trigger] t[i], kind) by {
+            assert(t[i] == c[i + 1]);
+        }
+        assert(walk_item_ok(c[0], kind));
+        let m = n - units(c[0], kind);
+        if m >= 0 {
+            lemma_walk_bounds(t, m, kind);
+            lemma_vsum_shift(c, kind);
+            match start_walk(t, m, kind) {
+                Some((k, r)) => { assert(t[k] == c[k + 1]); },
+                None => {},
+            }
+            match end_walk(t, m, kind) {
+                Some((k, r)) => { assert(t[k] == c[k + 1]); },
+                None => {},
+            }
+        } else {
+            lemma_walk_bounds(t, 0, kind);
+        }
+    }
+}
+
+pub proof fn lemma_vsum_shift(c: Seq<ItemPtr>, kind: OffsetKind)
+    requires
+        c.len() > 0,
+    ensures
+        forall|k: int| 0 <= k < c.len() ==> #[trigger] vsum(c, k + 1, kind) == units(c[0], kind) + vsum(c.skip(1), k, kind),
+{
+    assert forall|k: int| 0 <= k < c.len() implies #[trigger] vsum(c, k + 1, kind) == units(c[0], kind) + vsum(c.skip(1), k, kind) by {
+        lemma_vsum_shift_k(c, k, kind);
+    }
+}
+
+pub proof fn lemma_vsum_shift_k(c: Seq<ItemPtr>, k: int, kind: OffsetKind)
+    requires
+        c.len() > 0,
+        0 <= k < c.len(),
+    ensures
+        vsum(c, k + 1, kind) == units(c[0], kind) + vsum(c.skip(1), k, kind),
+    decreases k,
+{
+    if k > 0 {
+        lemma_vsum_shift_k(c, k - 1, kind);
+        assert(c.skip(1)[k - 1] == c[k]);
+    } else {
+        assert(vsum(c, 0, kind) == 0);
+    }
+}
+
+/// outside the class of FINDING Q3 the first loop finds the element at the index, like the second
+pub proof fn lemma_start_is_unit(c: Seq<ItemPtr>, n: int, kind: OffsetKind)
+    requires
+        walk_ok(c, kind),
+        0 <= n,
+        !finding_q3_start_anchor_on_invisible_item(c, n, kind),
+    ensures
+        start_walk(c, n, kind) == end_walk(c, n, kind),
+    decreases c.len(),
+{
+    if c.len() > 0 {
+        let t = c.skip(1);
+        assert(walk_item_ok(c[0], kind));
+        assert forall|i: int| 0 <= i < t.len() implies walk_item_ok(#[trigger] t[i], kind) by {
+            assert(t[i] == c[i + 1]);
+        }
+        if n == 0 {
+            // the loop stops at once; the item is visible (outside the class), so it holds V[0]
+            assert(vis(c[0]) && 0 < clen(c[0], kind));
+        } else if vis(c[0]) && n < clen(c[0], kind) {
+        } else {
+            let m = n - units(c[0], kind);
+            lemma_walk_bounds(t, m, kind);
+            match start_walk(t, m, kind) {
+                Some((k, r)) => { assert(t[k] == c[k + 1]); },
+                None => {},
+            }
+            lemma_start_is_unit(t, m, kind);
+        }
+    }
+}
+
+/// the second loop starts where the first one stopped (item `k`, `r` units into it) and looks for the index e >= s RELATIVE to
+/// the beginning of that item: it finds the element at index e of the whole chain
+pub proof fn lemma_end_walk_from(c: Seq<ItemPtr>, k: int, e: int, kind: OffsetKind)
+    requires
+        walk_ok(c, kind),
+        0 <= k <= c.len(),
+        vsum(c, k, kind) <= e,
+    ensures
+        end_walk(c, e, kind) == lift(k, end_walk(c.skip(k), e - vsum(c, k, kind), kind)),
+    decreases k,
+{
+    if k == 0 {
+        assert(c.skip(0) =~= c);
+        match end_walk(c, e, kind) { Some((j, r)) => {}, None => {} }
+    } else {
+        let t = c.skip(1);
+        assert(walk_item_ok(c[0], kind));
+        assert forall|i: int| 0 <= i < t.len() implies walk_item_ok(#[trigger] t[i], kind) by {
+            assert(t[i] == c[i + 1]);
+        }
+        lemma_vsum_shift(c, kind);
+        assert(vsum(c, k, kind) == units(c[0], kind) + vsum(t, k - 1, kind));
+        lemma_vsum_nonneg(t, k - 1, kind);
+        // the first item lies completely in front of index e
+        assert(!(vis(c[0]) && e < clen(c[0], kind)));
+        lemma_end_walk_from(t, k - 1, e - units(c[0], kind), kind);
+        assert(t.skip(k - 1) =~= c.skip(k));
+        match end_walk(t.skip(k - 1), e - vsum(c, k, kind), kind) { Some((j, r)) => {}, None => {} }
+    }
+}
+
+pub proof fn lemma_vsum_nonneg(c: Seq<ItemPtr>, k: int, kind: OffsetKind)
+    requires
+        walk_ok(c, kind),
+        0 <= k <= c.len(),
+    ensures
+        vsum(c, k, kind) >= 0,
+    decreases k,
+{
+    if k > 0 {
+        lemma_vsum_nonneg(c, k - 1, kind);
+        assert(walk_item_ok(c[k - 1], kind));
+    }
+}
+
+// ---- composing the two walks the way `quote` does, and `quote` with `RangeIter` ------------------------------------------
+pub proof fn lemma_vsum_mono(c: Seq<ItemPtr>, i: int, j: int, kind: OffsetKind)
+    requires
+        walk_ok(c, kind),
+        0 <= i <= j <= c.len(),
+    ensures
+        0 <= vsum(c, i, kind) <= vsum(c, j, kind),
+    decreases j - i,
+{
+    lemma_vsum_nonneg(c, i, kind);
+    if i < j {
+        lemma_vsum_mono(c, i, j - 1, kind);
+        assert(walk_item_ok(c[j - 1], kind));
+    }
+}
+
+/// the elements at two indexes n1 <= n2 stand in that order: an earlier item, or the same item at a smaller-or-equal offset
+pub proof fn lemma_unit_order(c: Seq<ItemPtr>, n1: int, n2: int, kind: OffsetKind)
+    requires
+        walk_ok(c, kind),
+        0 <= n1 <= n2,
+        end_walk(c, n1, kind) is Some,
+        end_walk(c, n2, kind) is Some,
+    ensures
+        ({
+            let (k1, o1) = end_walk(c, n1, kind).unwrap();
+            let (k2, o2) = end_walk(c, n2, kind).unwrap();
+            k1 < k2 || (k1 == k2 && o1 <= o2)
+        }),
+{
+    lemma_walk_bounds(c, n1, kind);
+    lemma_walk_bounds(c, n2, kind);
+    let (k1, o1) = end_walk(c, n1, kind).unwrap();
+    let (k2, o2) = end_walk(c, n2, kind).unwrap();
+    if k1 > k2 {
+        lemma_vsum_mono(c, k2 + 1, k1, kind);
+        assert(vsum(c, k2 + 1, kind) == vsum(c, k2, kind) + units(c[k2], kind));
+    }
+}
+
+/// THE TWO WALKS TOGETHER (the data flow of `quote`: the second walk gets `curr` / `remaining` / the iterator of the first).
+/// For a start index s and an end index e: the END anchor is the element at index e -- in EVERY case --, OutOfBounds iff
+/// e < s or there is no such element; the start anchor is the element at index s outside the class of FINDING Q3
+pub proof fn theorem_quote_anchors(c: Seq<ItemPtr>, s: int, e: int, kind: OffsetKind)
+    requires
+        walk_ok(c, kind),
+        0 <= s <= e,
+    ensures
+        match start_walk(c, s, kind) {
+            // (the first walk ran off the chain: s >= |V|, so e >= |V| as well)
+            None => s >= vlen(c, kind) && end_walk(c, e, kind) is None,
+            Some((k, r)) => {
+                // what the second walk returns, on the chain `walk_chain(Some(c[k]), c.skip(k + 1))`, for the target e - s + r ...
+                &&& walk_chain(Some(c[k]), c.skip(k + 1)) == c.skip(k)
+                &&& 0 <= r <= s
+                // ... is the element at index e of the WHOLE chain
+                &&& lift(k, end_walk(c.skip(k), e - s + r, kind)) == end_walk(c, e, kind)
+                &&& end_walk(c, e, kind) is None <==> e >= vlen(c, kind)
+                &&& !finding_q3_start_anchor_on_invisible_item(c, s, kind) ==> start_walk(c, s, kind) == end_walk(c, s, kind) && s < vlen(c, kind)
+            },
+        },
+{
+    lemma_walk_bounds(c, s, kind);
+    lemma_walk_bounds(c, e, kind);
+    match start_walk(c, s, kind) {
+        None => {
+            lemma_start_none(c, s, kind);
+        },
+        Some((k, r)) => {
+            assert(seq![c[k]] + c.skip(k + 1) =~= c.skip(k));
+            lemma_vsum_nonneg(c, k, kind);
+            lemma_end_walk_from(c, k, e, kind);
+            if !finding_q3_start_anchor_on_invisible_item(c, s, kind) {
+                lemma_start_is_unit(c, s, kind);
+            }
+        },
+    }
+}
+
+/// the first walk runs off the chain only for an index beyond the last element
+pub proof fn lemma_start_none(c: Seq<ItemPtr>, n: int, kind: OffsetKind)
+    requires
+        walk_ok(c, kind),
+        0 <= n,
+        start_walk(c, n, kind) is None,
+    ensures
+        n >= vlen(c, kind),
+    decreases c.len(),
+{
+    if c.len() > 0 {
+        let t = c.skip(1);
+        assert(walk_item_ok(c[0], kind));
+        assert forall|i: int| 0 <= i < t.len() implies walk_item_ok(#[trigger] t[i], kind) by {
+            assert(t[i] == c[i + 1]);
+        }
+        lemma_start_none(t, n - units(c[0], kind), kind);
+    }
+}
+
+/// in documents / for contents whose index units ARE clock units (every UTF-16 document; non-string content in any document:
+/// `lemma_walk_item_ok`)
+pub open spec fn unit_is_clock(c: Seq<ItemPtr>, kind: OffsetKind) -> bool {
+    &&& forall|i: int, r: int| 0 <= i < c.len() && 0 <= r < clen(c[i], kind) ==> #[trigger] clock_off(c[i], r, kind) == r
+    &&& forall|i: int| 0 <= i < c.len() && vis(#[trigger] c[i]) ==> clen(c[i], kind) == c[i].len
+}
+
+pub proof fn lemma_anchor_find(c: Seq<ItemPtr>, k: int, id: ID)
+    requires
+        disjoint(c),
+        0 <= k < c.len(),
+        covers_id(c[k], id),
+    ensures
+        occurs(c, id),
+        find(c, id) == k,
+{
+    lemma_find_bounds(c, id);
+    let f = find(c, id);
+    if f < k {
+        assert(covers_id(c[f], id));
+        assert(!covers_id(c[k], id));
+    }
+}
+
+pub proof fn lemma_pos_same_block(c: Seq<ItemPtr>, a: ID, e: ID)
+    requires
+        items_ok(c),
+        occurs(c, a),
+        occurs(c, e),
+        find(c, a) == find(c, e),
+    ensures
+        pos(c, a) - pos(c, e) == a.clock - e.clock,
+    decreases c.len(),
+{
+    lemma_find_bounds(c, a);
+    lemma_find_bounds(c, e);
+    lemma_pos_bounds(c, a);
+    lemma_pos_bounds(c, e);
+    if c.len() > 0 && !covers_id(c[0], a) {
+        assert(!covers_id(c[0], e));
+        lemma_items_ok_skip(c, 1);
+        lemma_pos_same_block(c.skip(1), a, e);
+    }
+}
+
+// ---- "the caller filters": the VISIBLE units of a segment of S ------------------------------------------------------------
+pub open spec fn clamp(x: int, lo: int, hi: int) -> int {
+    if x < lo { lo } else if x > hi { hi } else { x }
+}
+
+/// V in clock units: the unit ids of the visible items, in order
+pub open spec fn vflat(c: Seq<ItemPtr>) -> Seq<ID>
+    decreases c.len(),
+{
+    if c.len() == 0 {
+        Seq::empty()
+    } else {
+        (if vis(c[0]) { block_ids(c[0]) } else { Seq::empty() }) + vflat(c.skip(1))
+    }
+}
+
+/// number of visible units among the first `a` units of S
+pub open spec fn vcount(c: Seq<ItemPtr>, a: int) -> int
+    decreases c.len(),
+{
+    if c.len() == 0 {
+        0
+    } else {
+        (if vis(c[0]) { clamp(a, 0, c[0].len as int) } else { 0 }) + vcount(c.skip(1), a - c[0].len)
+    }
+}
+
+/// the visible units of S[a .. b): what a consumer that skips tombstones / non-countable items (`Values`) keeps of the segment
+pub open spec fn vpart(c: Seq<ItemPtr>, a: int, b: int) -> Seq<ID>
+    decreases c.len(),
+{
+    if c.len() == 0 {
+        Seq::empty()
+    } else {
+        (if vis(c[0]) { ids_of(c[0], clamp(a, 0, c[0].len as int), clamp(b, 0, c[0].len as int) - 1) } else { Seq::empty() })
+            + vpart(c.skip(1), a - c[0].len, b - c[0].len)
+    }
+}
+
+pub proof fn lemma_vcount_bounds(c: Seq<ItemPtr>, a: int, b: int)
+    requires
+        items_ok(c),
+        a <= b,
+    ensures
+        0 <= vcount(c, a) <= vcount(c, b) <= vflat(c).len(),
+        a <= 0 ==> vcount(c, a) == 0,
+    decreases c.len(),
+{
+    if c.len() > 0 {
+        assert(item_ok(c[0]));
+        lemma_items_ok_skip(c, 1);
+        lemma_vcount_bounds(c.skip(1), a - c[0].len, b - c[0].len);
+        assert(block_ids(c[0]).len() == c[0].len);
+    }
+}
+
+/// the visible units of S[a .. b) are V[vcount(a) .. vcount(b))
+pub proof fn lemma_vpart(c: Seq<ItemPtr>, a: int, b: int)
+    requires
+        items_ok(c),
+        a <= b,
+    ensures
+        vpart(c, a, b) == vflat(c).subrange(vcount(c, a), vcount(c, b)),
+    decreases c.len(),
+{
+    lemma_vcount_bounds(c, a, b);
+    if c.len() == 0 {
+        assert(vpart(c, a, b) =~= vflat(c).subrange(0, 0));
+    } else {
+        let p = c[0];
+        let t = c.skip(1);
+        let l = p.len as int;
+        assert(item_ok(p));
+        lemma_items_ok_skip(c, 1);
+        lemma_vpart(t, a - l, b - l);
+        lemma_vcount_bounds(t, a - l, b - l);
+        lemma_vcount_bounds(t, b - l, b - l);
+        let h = if vis(p) { block_ids(p) } else { Seq::<ID>::empty() };
+        assert(block_ids(p).len() == l);
+        let ca = if vis(p) { clamp(a, 0, l) } else { 0 };
+        let cb = if vis(p) { clamp(b, 0, l) } else { 0 };
+        let x = vcount(t, a - l);
+        let y = vcount(t, b - l);
+        // a position inside the first block has nothing of the others in front of it; one behind it has all of the first block
+        assert(a < l ==> x == 0);
+        assert(b < l ==> y == 0);
+        assert(a >= l ==> ca == h.len());
+        assert(b >= l ==> cb == h.len());
+        assert(vpart(c, a, b) =~= (h + vflat(t)).subrange(ca + x, cb + y));
+    }
+}
+
+/// the unit at offset o (or, d = 1, the position directly behind it) of a visible item k has vsum(k) + o (+ d) visible units in
+/// front of it
+pub proof fn lemma_vcount_at(c: Seq<ItemPtr>, k: int, id: ID, d: int, kind: OffsetKind)
+    requires
+        walk_ok(c, kind),
+        disjoint(c),
+        forall|i: int| 0 <= i < c.len() && vis(#[trigger] c[i]) ==> clen(c[i], kind) == c[i].len,
+        0 <= k < c.len(),
+        vis(c[k]),
+        covers_id(c[k], id),
+        d == 0 || d == 1,
+    ensures
+        vcount(c, pos(c, id) + d) == vsum(c, k, kind) + (id.clock - c[k].id.clock) + d,
+    decreases c.len(),
+{
+    let o = id.clock - c[k].id.clock;
+    assert(walk_item_ok(c[0], kind));
+    let t = c.skip(1);
+    assert forall|i: int| 0 <= i < t.len() implies walk_item_ok(#[trigger] t[i], kind) by {
+        assert(t[i] == c[i + 1]);
+    }
+    assert(items_ok(t)) by {
+        assert forall|i: int| 0 <= i < t.len() implies item_ok(#[trigger] t[i]) by {
+            assert(walk_item_ok(t[i], kind));
+        }
+    }
+    if k == 0 {
+        lemma_vcount_bounds(t, o + d - c[0].len, o + d - c[0].len);
+        assert(vsum(c, 0, kind) == 0);
+    } else {
+        // the unit is not in the first item (disjoint)
+        assert(!covers_id(c[0], id)) by {
+            if covers_id(c[0], id) {
+                assert(!covers_id(c[k], id));
+            }
+        }
+        lemma_disjoint_skip(c);
+        assert(t[k - 1] == c[k]);
+        assert forall|i: int| 0 <= i < t.len() && vis(#[trigger] t[i]) implies clen(t[i], kind) == t[i].len by {
+            assert(t[i] == c[i + 1]);
+        }
+        lemma_vcount_at(t, k - 1, id, d, kind);
+        lemma_vsum_shift(c, kind);
+        assert(vsum(c, k, kind) == units(c[0], kind) + vsum(t, k - 1, kind));
+        // pos(c, id) + d >= len of the first item: all its units are in front
+        lemma_anchor_find(t, k - 1, id);
+        assert(items_ok(c)) by {
+            assert forall|i: int| 0 <= i < c.len() implies item_ok(#[trigger] c[i]) by {
+                assert(walk_item_ok(c[i], kind));
+            }
+        }
+        lemma_pos_bounds(c, id);
+        lemma_pos_bounds(t, id);
+    }
+}
+
+/// C20 KERNEL, COMPOSED: `quote(range)` with a start index s and an end index e >= s on the chain `c`, followed -- on the same,
+/// unchanged chain -- by a `RangeIter` over `c` with the two anchors, drained: the slices yielded are exactly ALL the clock
+/// units of the chain (visible or not: `RangeIter` does not look at tombstones, its consumer `Values` skips them) from the
+/// element at index s (behind it for an exclusive start) to the element at index e (in front of it for an exclusive end).
+/// Stated for index units that are clock units (`unit_is_clock`) and outside the class of FINDING Q3.
+pub proof fn theorem_quote_then_drain(c: Seq<ItemPtr>, s: int, e: int, kind: OffsetKind, start: StickyIndex, end: StickyIndex, vs: Seq<IterView>, outs: Seq<ItemSlice>)
+    requires
+        walk_ok(c, kind),
+        disjoint(c),
+        unit_is_clock(c, kind),
+        0 <= s <= e < vlen(c, kind),
+        !finding_q3_start_anchor_on_invisible_item(c, s, kind),
+        // the anchors `quote` returns (quote_start_walk / quote_end_walk + theorem_quote_anchors)
+        start.id_spec() == Some(anchor_id(c[end_walk(c, s, kind).unwrap().0], end_walk(c, s, kind).unwrap().1, kind)),
+        end.id_spec() == Some(anchor_id(c[end_walk(c, e, kind).unwrap().0], end_walk(c, e, kind).unwrap().1, kind)),
+        vs.len() > 0 && vs[0] == (IterView { s: c, state: RangeIterState::Opened, start: start, end: end }),
+        is_trace(vs, outs),
+    ensures
+        ({
+            let (ks, os) = end_walk(c, s, kind).unwrap();
+            let (ke, oe) = end_walk(c, e, kind).unwrap();
+            let a = start.id_spec().unwrap();
+            let b = end.id_spec().unwrap();
+            // both boundary elements are VISIBLE elements of the chain, the units at index-offset os / oe of their items ...
+            &&& vis(c[ks]) && vis(c[ke]) && a == (ID { client: c[ks].id.client, clock: (c[ks].id.clock + os) as u32 }) && b == (ID { client: c[ke].id.client, clock: (c[ke].id.clock + oe) as u32 })
+            &&& vsum(c, ks, kind) + os == s && vsum(c, ke, kind) + oe == e
+            // ... they occur in S = flat(c), the start one not behind the end one ...
+            &&& occurs(c, a) && occurs(c, b) && flat(c)[pos(c, a)] == a && flat(c)[pos(c, b)] == b && pos(c, a) <= pos(c, b)
+            // ... and the drained slices are exactly S from the start element (behind it if exclusive) to the end element (in front
+            // of it if exclusive): every slice a non-empty range of one item, in order, no unit twice
+            &&& slices_ok(c, outs)
+            &&& concat_ids(outs) == seg(c, pos(c, a) + (if start.assoc == Assoc::After { 1int } else { 0int }), pos(c, b) + (if end.assoc == Assoc::After { 1int } else { 0int }))
+            &&& concat_ids(outs).no_duplicates()
+            // THE CALLER FILTERS: the VISIBLE units among them are exactly V[s ..= e] (V[s + 1 .. / .. e) for exclusive bounds)
+            &&& pos(c, a) + (if start.assoc == Assoc::After { 1int } else { 0int }) <= pos(c, b) + (if end.assoc == Assoc::After { 1int } else { 0int }) ==>
+                vpart(c, pos(c, a) + (if start.assoc == Assoc::After { 1int } else { 0int }), pos(c, b) + (if end.assoc == Assoc::After { 1int } else { 0int }))
+                    == vflat(c).subrange(s + (if start.assoc == Assoc::After { 1int } else { 0int }), e + (if end.assoc == Assoc::After { 1int } else { 0int }))
+        }),
+{
+    lemma_walk_bounds(c, s, kind);
+    lemma_walk_bounds(c, e, kind);
+    let (ks, os) = end_walk(c, s, kind).unwrap();
+    let (ke, oe) = end_walk(c, e, kind).unwrap();
+    let a = start.id_spec().unwrap();
+    let b = end.id_spec().unwrap();
+    assert(walk_item_ok(c[ks], kind) && walk_item_ok(c[ke], kind));
+    assert(clock_off(c[ks], os, kind) == os && clock_off(c[ke], oe, kind) == oe);
+    assert(items_ok(c)) by {
+        assert forall|i: int| 0 <= i < c.len() implies item_ok(#[trigger] c[i]) by {
+            assert(walk_item_ok(c[i], kind));
+        }
+    }
+    assert(covers_id(c[ks], a) && covers_id(c[ke], b));
+    lemma_anchor_find(c, ks, a);
+    lemma_anchor_find(c, ke, b);
+    lemma_pos_index(c, a);
+    lemma_pos_index(c, b);
+    lemma_unit_order(c, s, e, kind);
+    if ks < ke {
+        lemma_find_mono(c, b, a);
+    } else {
+        lemma_pos_same_block(c, b, a);
+    }
+    theorem_quote_range(c, start, end, vs, outs);
+    let ds = if start.assoc == Assoc::After { 1int } else { 0int };
+    let de = if end.assoc == Assoc::After { 1int } else { 0int };
+    lemma_vcount_at(c, ks, a, ds, kind);
+    lemma_vcount_at(c, ke, b, de, kind);
+    if pos(c, a) + ds <= pos(c, b) + de {
+        lemma_vpart(c, pos(c, a) + ds, pos(c, b) + de);
+    }
+}
+
+/// the chain the second walk runs on: the item the first walk stopped at, followed by what its iterator has not handed out yet
+pub open spec fn walk_chain(curr: Option<ItemPtr>, rest: Seq<ItemPtr>) -> Seq<ItemPtr> {
+    match curr {
+        Some(p) => seq![p] + rest,
+        None => Seq::empty(),
+    }
+}
+
+pub open spec fn walk_inv(c0: Seq<ItemPtr>, rest: Seq<ItemPtr>, curr: Option<ItemPtr>) -> bool {
+    let n = c0.len() as int;
+    let m = rest.len() as int;
+    &&& m <= n
+    &&& rest =~= c0.skip(n - m)
+    &&& match curr {
+        Some(p) => m < n && p == c0[n - m - 1],
+        None => m == 0,
+    }
+}
+
+/// index of the item `curr` in the chain (`c0.len()` if the walk has run off its end)
+pub open spec fn walk_at(c0: Seq<ItemPtr>, rest: Seq<ItemPtr>, curr: Option<ItemPtr>) -> int {
+    if curr is Some { c0.len() - rest.len() - 1 } else { c0.len() as int }
+}
+
+// ---- the real code: the two walks of `Quotable::quote`, lifted (R18 statement regions).  Parameters = the variables of `quote`
+// the statements read / write (`i`: the BlockIter over the chain; `curr`, `remaining`, `start_index`: live-in AND live-out);
+// `curr.as_deref()` on the lowered pointer is the identity (SUB, logged).
+// FIRST WALK: `start_index = start_i; remaining = start_index; curr = i.next(); while .. {..}; let start_id = ..;` (Ok = the
+// statements ran through: (start_id, start_index, remaining, curr) as the rest of `quote` sees them)
+/*@extract yrs/src/types/weak.rs | trait Quotable: AsRef<Branch> + Sized | region quote | stmt=stmt:assign start_index | stmtnth=1 | upto=stmt:let start_id | tail=Ok((start_id, start_index, remaining, curr)) | label=quote_start_walk | rules=SUB(from=.as_deref();;to=)
+@header
+    fn quote_start_walk(i: &mut BlockIter, start_i: u32, encoding: OffsetKind, mut start_index: u32, mut remaining: u32, mut curr: Option<ItemPtr>) -> (res: Result<(ID, u32, u32, Option<ItemPtr>), QuoteError>)
+@sig
+    requires
+        walk_ok(chain(old(i).0), encoding),
+    ensures
+        // WHAT THE CODE COMPUTES: the item the first loop stops at, what is left of the index, and the anchor id made of them
+        match start_walk(chain(old(i).0), start_i as int, encoding) {
+            Some((k, r)) => res is Ok && res->Ok_0.0 == anchor_id(chain(old(i).0)[k], r, encoding) && res->Ok_0.1 == start_i && res->Ok_0.2 == r
+                && res->Ok_0.3 == Some(chain(old(i).0)[k]) && chain(final(i).0) =~= chain(old(i).0).skip(k + 1),
+            None => res is Err && res->Err_0 is OutOfBounds,
+        },
+        // THE PROPERTY: the start anchor is the element at index `start_i`; OutOfBounds iff there is none
+        !finding_q3_start_anchor_on_invisible_item(chain(old(i).0), start_i as int, encoding) ==> anchors_unit(chain(old(i).0), start_i as int, encoding, match res { Ok(x) => Ok(x.0), Err(e) => Err(e) }),
+@start
+    let ghost c0 = chain(i.0);
+    proof {
+        lemma_walk_bounds(c0, start_i as int, encoding);
+        if !finding_q3_start_anchor_on_invisible_item(c0, start_i as int, encoding) {
+            lemma_start_is_unit(c0, start_i as int, encoding);
+        }
+        assert(c0.skip(0) =~= c0);
+    }
+@loop 1
+    invariant
+        c0 == chain(old(i).0),
+        walk_ok(c0, encoding),
+        start_index == start_i,
+        walk_inv(c0, chain(i.0), curr),
+        start_walk(c0, start_i as int, encoding) == lift(walk_at(c0, chain(i.0), curr), start_walk(c0.skip(walk_at(c0, chain(i.0), curr)), remaining as int, encoding)),
+    ensures
+        match curr {
+            Some(p) => start_walk(c0, start_i as int, encoding) == Some((walk_at(c0, chain(i.0), curr), remaining as int)),
+            None => start_walk(c0, start_i as int, encoding) is None,
+        },
+    decreases
+        chain(i.0).len() + (if curr is Some { 1int } else { 0int }),
+@loopstart 1
+    let ghost vx_k = walk_at(c0, chain(i.0), curr);
+    proof {
+        assert(c0.skip(vx_k)[0] == c0[vx_k]);
+        assert(c0.skip(vx_k).skip(1) =~= c0.skip(vx_k + 1));
+        assert(walk_item_ok(c0[vx_k], encoding));
+    }
+@before 1 `stmt:let start_id`
+    proof {
+        if curr is Some {
+            let k = walk_at(c0, chain(i.0), curr);
+            assert(walk_item_ok(c0[k], encoding));
+            if remaining > 0 {
+                assert(0 <= clock_off(c0[k], remaining as int, encoding) < c0[k].len);
+            }
+        }
+    }
+@*/
+
+// FINDING Q3 (OPEN; obligation quote_range::quote_start_walk_q3::post).  The same statements once more, on the input class the
+// property clause above excludes.  The first loop leaves with `if remaining == 0 { break; }` BEFORE it looks at the item: when the
+// index is used up exactly at an item boundary (or is 0) the anchor is the NEXT item whatever it is -- a tombstone or a
+// non-countable item that stands in front of the element at the index (the second loop has no such test and passes them).
+//   * exclusive start: the range begins behind the TOMBSTONE, i.e. AT the element that was to be excluded.  [a, (X), b, c] (X
+//     removed), `quote((Excluded(1), Included(2)))`: unquote = b, c -- expected c.  [(X), a, b, c], `(Excluded(0), Included(2))`:
+//     a, b, c -- expected b, c.
+//   * inclusive start: the visible result is right when quoted, but the boundary element is the tombstone: an element another
+//     replica inserted between the tombstone and the first element is INSIDE the quotation.  [a, X, b, c]; replica 2 inserts Y
+//     behind X; replica 1 removes X and quotes 1..=2 (= b, c); after the exchange the array is a, Y, b, c and the quotation
+//     dereferences to Y, b, c (without the tombstone, same edits: b, c).
+//   * start index == len() with a trailing tombstone: `[a, b, (X)].quote(2..)` is Ok (empty) where `[a, b].quote(2..)` is
+//     Err(OutOfBounds) ("that index still needs to point to existing value").
+/*@extract yrs/src/types/weak.rs | trait Quotable: AsRef<Branch> + Sized | region quote | stmt=stmt:assign start_index | stmtnth=1 | upto=stmt:let start_id | tail=Ok((start_id, start_index, remaining, curr)) | label=quote_start_walk_q3 | rules=SUB(from=.as_deref();;to=)
+@header
+    fn quote_start_walk_q3(i: &mut BlockIter, start_i: u32, encoding: OffsetKind, mut start_index: u32, mut remaining: u32, mut curr: Option<ItemPtr>) -> (res: Result<(ID, u32, u32, Option<ItemPtr>), QuoteError>)
+@sig
+    requires
+        walk_ok(chain(old(i).0), encoding),
+        finding_q3_start_anchor_on_invisible_item(chain(old(i).0), start_i as int, encoding),
+    ensures
+        // THE PROPERTY, on the input class of FINDING Q3: the start anchor is the element at index `start_i`; OutOfBounds iff
+        // there is none
+        anchors_unit(chain(old(i).0), start_i as int, encoding, match res { Ok(x) => Ok(x.0), Err(e) => Err(e) }),
+@start
+    let ghost c0 = chain(i.0);
+    proof {
+        lemma_walk_bounds(c0, start_i as int, encoding);
+        if !finding_q3_start_anchor_on_invisible_item(c0, start_i as int, encoding) {
+            lemma_start_is_unit(c0, start_i as int, encoding);
+        }
+        assert(c0.skip(0) =~= c0);
+    }
+@loop 1
+    invariant
+        c0 == chain(old(i).0),
+        walk_ok(c0, encoding),
+        start_index == start_i,
+        walk_inv(c0, chain(i.0), curr),
+        start_walk(c0, start_i as int, encoding) == lift(walk_at(c0, chain(i.0), curr), start_walk(c0.skip(walk_at(c0, chain(i.0), curr)), remaining as int, encoding)),
+    ensures
+        match curr {
+            Some(p) => start_walk(c0, start_i as int, encoding) == Some((walk_at(c0, chain(i.0), curr), remaining as int)),
+            None => start_walk(c0, start_i as int, encoding) is None,
+        },
+    decreases
+        chain(i.0).len() + (if curr is Some { 1int } else { 0int }),
+@loopstart 1
+    let ghost vx_k = walk_at(c0, chain(i.0), curr);
+    proof {
+        assert(c0.skip(vx_k)[0] == c0[vx_k]);
+        assert(c0.skip(vx_k).skip(1) =~= c0.skip(vx_k + 1));
+        assert(walk_item_ok(c0[vx_k], encoding));
+    }
+@before 1 `stmt:let start_id`
+    proof {
+        if curr is Some {
+            let k = walk_at(c0, chain(i.0), curr);
+            assert(walk_item_ok(c0[k], encoding));
+            if remaining > 0 {
+                assert(0 <= clock_off(c0[k], remaining as int, encoding) < c0[k].len);
+            }
+        }
+    }
+@*/
+
+// SECOND WALK: the guard (FINDING Q2, repaired), `remaining = end_index - start_index + remaining; while .. {..}; let end_id = ..;`
+// on the chain that begins with the item the first walk stopped at
+/*@extract yrs/src/types/weak.rs | trait Quotable: AsRef<Branch> + Sized | region quote | stmt=stmt:if ~ OutOfBounds | stmtnth=1 | upto=stmt:let end_id | tail=Ok(end_id) | label=quote_end_walk | rules=SUB(from=.as_deref();;to=)
+@header
+    fn quote_end_walk(i: &mut BlockIter, start_index: u32, end_index: u32, encoding: OffsetKind, mut remaining: u32, mut curr: Option<ItemPtr>) -> (res: Result<ID, QuoteError>)
+@sig
+    requires
+        remaining <= start_index,
+        walk_ok(chain(old(i).0), encoding),
+        curr is Some ==> walk_item_ok(curr.unwrap(), encoding),
+        // (the iterator is fused: nothing follows a None)
+        curr is None ==> chain(old(i).0).len() == 0,
+    ensures
+        // an inverted range is refused; otherwise the element at index (end_index - start_index + remaining) of the chain that
+        // begins with `curr`, OutOfBounds iff there is none
+        end_index < start_index ==> res is Err && res->Err_0 is OutOfBounds,
+        end_index >= start_index ==> anchors_unit(walk_chain(curr, chain(old(i).0)), end_index - start_index + remaining, encoding, res),
+        res is Err ==> res->Err_0 is OutOfBounds,
+@start
+    let ghost c0 = walk_chain(curr, chain(i.0));
+    let ghost n0: int = end_index as int - start_index as int + remaining as int;
+    proof {
+        assert(c0.skip(0) =~= c0);
+        if curr is Some {
+            assert(c0.skip(1) =~= chain(i.0));
+        }
+        assert forall|j: int| 0 <= j < c0.len() implies walk_item_ok(#[trigger] c0[j], encoding) by {
+            if curr is Some && j > 0 {
+                assert(c0[j] == chain(i.0)[j - 1]);
+            }
+        }
+    }
+@loop 1
+    invariant
+        end_index >= start_index,
+        walk_ok(c0, encoding),
+        walk_inv(c0, chain(i.0), curr),
+        end_walk(c0, n0, encoding) == lift(walk_at(c0, chain(i.0), curr), end_walk(c0.skip(walk_at(c0, chain(i.0), curr)), remaining as int, encoding)),
+    ensures
+        match curr {
+            Some(p) => end_walk(c0, n0, encoding) == Some((walk_at(c0, chain(i.0), curr), remaining as int)),
+            None => end_walk(c0, n0, encoding) is None,
+        },
+    decreases
+        chain(i.0).len() + (if curr is Some { 1int } else { 0int }),
+@loopstart 1
+    let ghost vx_k = walk_at(c0, chain(i.0), curr);
+    proof {
+        assert(c0.skip(vx_k)[0] == c0[vx_k]);
+        assert(c0.skip(vx_k).skip(1) =~= c0.skip(vx_k + 1));
+        assert(walk_item_ok(c0[vx_k], encoding));
+    }
+@before 1 `stmt:let end_id`
+    proof {
+        lemma_walk_bounds(c0, n0, encoding);
+        if curr is Some {
+            let k = walk_at(c0, chain(i.0), curr);
+            assert(walk_item_ok(c0[k], encoding));
+            assert(0 <= clock_off(c0[k], remaining as int, encoding) < c0[k].len);
+        }
+    }
+@*/
+
+// ---- the bodies of the two loops once more, each lifted on its own (R18 statement regions; `break` is spelled `return (remaining,
+// true)`: SUB, logged), so that an edit of a loop body fails a contract clause of real code and not only the loop invariant
+// spliced into the walks above.  Result: (the new `remaining`, the loop is left).
+/*@extract yrs/src/types/weak.rs | trait Quotable: AsRef<Branch> + Sized | region quote | stmt=stmt:while #1 >> stmt:if | stmtnth=1 | upto=stmt:while #1 >> stmt:if | uptonth=2 | tail=(remaining, false) | label=quote_start_step | rules=SUB(from=break;;to=return (remaining, true))
+@header
+    fn quote_start_step(item: &Item, encoding: OffsetKind, mut remaining: u32) -> (r: (u32, bool))
+@sig
+    ensures
+        // nothing left of the index: stop HERE, whatever the item is (the source of FINDING Q3)
+        remaining == 0 ==> r == (0u32, true),
+        // a visible item that holds the index: stop
+        remaining > 0 && vis(item) && remaining < clen(item, encoding) ==> r == (remaining, true),
+        // a visible item in front of the index: its units are consumed; an invisible item: passed
+        remaining > 0 && !(vis(item) && remaining < clen(item, encoding)) ==> r.0 == remaining - units(item, encoding) && !r.1,
+@*/
+
+/*@extract yrs/src/types/weak.rs | trait Quotable: AsRef<Branch> + Sized | region quote | stmt=stmt:while #2 >> stmt:if | stmtnth=1 | tail=(remaining, false) | label=quote_end_step | rules=SUB(from=break;;to=return (remaining, true))
+@header
+    fn quote_end_step(item: &Item, encoding: OffsetKind, mut remaining: u32) -> (r: (u32, bool))
+@sig
+    ensures
+        // a visible item that holds the index: stop
+        vis(item) && remaining < clen(item, encoding) ==> r == (remaining, true),
+        // a visible item in front of the index: its units are consumed; an invisible item (tombstone / non-countable): passed
+        !(vis(item) && remaining < clen(item, encoding)) ==> r.0 == remaining - units(item, encoding) && !r.1,
 @*/
 
 } // verus!
